@@ -20,6 +20,24 @@ import (
 type Case struct {
 	Op   string   `json:"op"`
 	Args []string `json:"args"`
+	// Use: operand i of the call is variable Use[i] (default: variable i); a
+	// repeated index passes the same object twice.
+	Use []int `json:"use,omitempty"`
+	// Route: "" (direct call), funcall, apply, reduce.
+	Route string `json:"route,omitempty"`
+	// Place of incf/decf: "" (a variable), car, nth, aref, gethash.
+	Place string `json:"place,omitempty"`
+	// Steps of a multi-step history (Op == "prog"); Args are the initial
+	// variables v0.., every step appends the variables it creates.
+	Steps []Step `json:"steps,omitempty"`
+}
+
+// Step is one operator application of a history. Args are variable names
+// (v0, v1, ...) or literals.
+type Step struct {
+	Op    string   `json:"op"`
+	Args  []string `json:"args"`
+	Route string   `json:"route,omitempty"`
 }
 
 var (
@@ -123,10 +141,11 @@ func nCases(tier string) int {
 	gridPairs = len(grid) * len(grid) * len(gridOps())
 	cmpGrid = len(grid) * len(grid) * 9 * len(cmpGridOps)
 	canonBlock = len(canonGrid)*len(canonGrid)*len(canonBin) + len(canonGrid)*len(canonUn) + len(canonGrid)*len(canonGrid)*len(canonGrid)*4
+	fixed := gridPairs + cmpGrid + canonBlock + len(structBlock()) + len(extraBlock())
 	if tier == "thorough" {
-		return gridPairs + cmpGrid + canonBlock + len(structBlock()) + 600000
+		return fixed + 600000
 	}
-	return gridPairs + cmpGrid + canonBlock + len(structBlock()) + 40000
+	return fixed + 60000
 }
 
 var structCases []Case
@@ -367,8 +386,15 @@ func gen(r *rand.Rand, i int, tier string) Case {
 		op := []string{"+", "-", "*", "<"}[k/(n*n*n)]
 		return Case{Op: op, Args: []string{canonGrid[(k/(n*n))%n], canonGrid[(k/n)%n], canonGrid[k%n]}}
 	}
-	if sb := structBlock(); i < gridPairs+cmpGrid+canonBlock+len(sb) {
+	sb := structBlock()
+	if i < gridPairs+cmpGrid+canonBlock+len(sb) {
 		return sb[i-gridPairs-cmpGrid-canonBlock]
+	}
+	if eb := extraBlock(); i < gridPairs+cmpGrid+canonBlock+len(sb)+len(eb) {
+		return eb[i-gridPairs-cmpGrid-canonBlock-len(sb)]
+	}
+	if k := r.IntN(18); 10 <= k {
+		return genExtra(r, k-10)
 	}
 	switch r.IntN(10) {
 	case 0: // unary rational
@@ -455,6 +481,9 @@ func floatOrRat(r *rand.Rand) string {
 
 // parseLit gives the exact rational value of a literal and its class.
 func parseLit(s string) (*big.Rat, string) {
+	if strings.HasPrefix(s, ":") { // a keyword: not a number
+		return nil, "other"
+	}
 	ls := strings.ToLower(s)
 	if i := strings.IndexAny(ls, "fdl"); 0 <= i && strings.ContainsAny(ls, ".") || strings.ContainsAny(ls, "fdl") {
 		i := strings.IndexAny(ls, "fdl")
@@ -506,11 +535,12 @@ func showRat(q *big.Rat) string {
 }
 
 type expect struct {
-	vals  []*big.Rat // exact values (for numeric results)
-	bool_ *bool      // for predicates
-	err   bool       // an error condition is required (division by zero)
-	any   bool       // no requirement (outside the property)
-	loose bool       // value must be numerically equal; representation free (float operands)
+	vals  []*big.Rat      // exact values (for numeric results)
+	bool_ *bool           // for predicates
+	err   bool            // an error condition is required (division by zero)
+	any   bool            // no requirement (outside the property)
+	loose bool            // value must be numerically equal; representation free (float operands)
+	kinds map[string]bool // loose only: the representations the result may have
 }
 
 func ratInt(x *big.Int) *big.Rat { return new(big.Rat).SetInt(x) }
@@ -548,6 +578,19 @@ func divide(mode string, a, b *big.Rat) (q, r *big.Rat) {
 func oracle(c Case, vals []*big.Rat, classes []string) expect {
 	allRat := true
 	allInt := true
+	for _, cl := range classes {
+		if cl == "other" {
+			// a non-number operand: every operator must signal an error; a
+			// comparison may answer before it reaches the operand
+			switch c.Op {
+			case "=", "/=", "<", "<=", ">", ">=":
+				if 1 < len(vals) {
+					return expect{any: true}
+				}
+			}
+			return expect{err: true}
+		}
+	}
 	for i, cl := range classes {
 		if cl == "single" || cl == "double" || cl == "long" {
 			allRat = false
@@ -605,7 +648,23 @@ func oracle(c Case, vals []*big.Rat, classes []string) expect {
 				m = v
 			}
 		}
-		return one(m)
+		e := one(m)
+		if e.loose {
+			// the result is one of the arguments that attain the extreme, or
+			// (float contagion) a float of a format present among the arguments
+			e.kinds = map[string]bool{}
+			for i, v := range vals {
+				switch classes[i] {
+				case "single", "double", "long":
+					e.kinds[classes[i]] = true
+				default:
+					if v.Cmp(m) == 0 {
+						e.kinds[classes[i]] = true
+					}
+				}
+			}
+		}
+		return e
 	}
 	if !allRat {
 		return expect{any: true}
@@ -681,10 +740,15 @@ func oracle(c Case, vals []*big.Rat, classes []string) expect {
 		return one(ratInt(vals[0].Num()))
 	case "denominator":
 		return one(ratInt(vals[0].Denom()))
-	case "incf":
-		return one(new(big.Rat).Add(vals[0], vals[1]))
-	case "decf":
-		return one(new(big.Rat).Sub(vals[0], vals[1]))
+	case "incf", "decf":
+		d := big.NewRat(1, 1) // default delta
+		if 1 < n {
+			d = vals[1]
+		}
+		if c.Op == "decf" {
+			return one(new(big.Rat).Sub(vals[0], d))
+		}
+		return one(new(big.Rat).Add(vals[0], d))
 	}
 	if !allInt {
 		if c.Op == "expt" && vals[1].IsInt() {
@@ -800,8 +864,27 @@ func oracle(c Case, vals []*big.Rat, classes []string) expect {
 		}
 		return one(ratInt(new(big.Int).Rsh(x, uint(-sh)))) // big.Int.Rsh is arithmetic (floor)
 	case "expt":
-		e := vals[1].Num().Int64()
 		base := vals[0]
+		if !vals[1].Num().IsInt64() {
+			// an exponent beyond a machine word: the exact result exists as an
+			// object only for the bases 0, 1 and -1
+			neg := vals[1].Sign() < 0
+			switch {
+			case base.Sign() == 0 && neg:
+				return expect{err: true}
+			case base.Sign() == 0:
+				return one(new(big.Rat))
+			case base.Cmp(big.NewRat(1, 1)) == 0:
+				return one(big.NewRat(1, 1))
+			case base.Cmp(big.NewRat(-1, 1)) == 0:
+				if vals[1].Num().Bit(0) == 1 {
+					return one(big.NewRat(-1, 1))
+				}
+				return one(big.NewRat(1, 1))
+			}
+			return expect{any: true}
+		}
+		e := vals[1].Num().Int64()
 		if base.Sign() == 0 && e < 0 {
 			return expect{err: true}
 		}
@@ -882,6 +965,9 @@ func sigClasses(vals []*big.Rat, classes []string, exp expect) string {
 			kinds["int"] = true
 		case "ratio":
 			kinds["ratio"] = true
+		case "other":
+			kinds["other"] = true
+			continue
 		default:
 			kinds["float"] = true
 		}
@@ -903,144 +989,421 @@ func sigClasses(vals []*big.Rat, classes []string, exp expect) string {
 	if kinds["float"] {
 		k = "float"
 	}
+	if kinds["other"] {
+		k = "nonnum"
+	}
 	return "mag=" + []string{"small", "big", "big"}[mag] + " kinds=" + k
 }
 
+var varNames = []string{"a", "b", "c", "d", "e", "f"}
+
+// sigOp names the construct in a signature: the operator, the place kind of
+// incf/decf when it is not a variable, the route when the call is not direct,
+// and for expt whether the exponent is beyond a machine word.
+func sigOp(op, place, route string, vals []*big.Rat) string {
+	if op == "expt" && len(vals) == 2 && vals[1] != nil && vals[1].IsInt() && !vals[1].Num().IsInt64() {
+		op = "expt^big"
+	}
+	if place != "" {
+		op += "@" + place
+	}
+	if route != "" {
+		op += "/" + route
+	}
+	return op
+}
+
+// placeForm is the incf/decf application on a place holding the value of
+// variable v, with the optional delta variable d; it returns two values: what
+// the macro returned and what the place holds afterwards.
+func placeForm(op, place, v, d string) string {
+	if d != "" {
+		d = " " + d
+	}
+	switch place {
+	case "car":
+		return fmt.Sprintf("(let ((z (list %s :x))) (values (%s (car z)%s) (car z)))", v, op, d)
+	case "nth":
+		return fmt.Sprintf("(let ((z (list :x %s))) (values (%s (nth 1 z)%s) (nth 1 z)))", v, op, d)
+	case "aref":
+		return fmt.Sprintf("(let ((z (vector :x %s))) (values (%s (aref z 1)%s) (aref z 1)))", v, op, d)
+	case "gethash":
+		return fmt.Sprintf("(let ((z (make-hash-table))) (setf (gethash :k z) %s) (values (%s (gethash :k z)%s) (nth-value 0 (gethash :k z))))", v, op, d)
+	}
+	return fmt.Sprintf("(let ((z %s)) (values (%s z%s) z))", v, op, d)
+}
+
+// callForm is the application of op to the named operands through a route.
+// The routes apply and reduce take their operands from the list variable l.
+func callForm(op, route string, names []string) string {
+	switch route {
+	case "funcall":
+		return "(funcall #'" + op + " " + strings.Join(names, " ") + ")"
+	case "apply":
+		return "(apply #'" + op + " l)"
+	case "reduce":
+		return "(reduce #'" + op + " l)"
+	}
+	if len(names) == 0 {
+		return "(" + op + ")"
+	}
+	return "(" + op + " " + strings.Join(names, " ") + ")"
+}
+
+// sameOperand tells whether obj still is the operand the literal denoted.
+func sameOperand(obj slip.Object, q *big.Rat, class, lit string) bool {
+	if class == "other" {
+		return sl.Show(obj) == strings.ToLower(lit)
+	}
+	got, kind, _, ok := exactOf(obj)
+	return ok && got.Cmp(q) == 0 && kind == class
+}
+
+// judge compares what an application returned (the list of its values, or an
+// error) with the expectation. It reports every disagreement and tells
+// whether the application agreed completely; got are the returned values.
+func judge(x *fw.Ctx, src string, sig func(fail string) string, exp expect, res slip.Object, err *sl.Err) (got slip.List, ok bool) {
+	if err != nil {
+		if exp.err && !err.Internal {
+			x.Cover("expected-error")
+			return nil, true
+		}
+		k := "error:" + err.Class
+		if err.Internal {
+			k = "internal-fault"
+		}
+		x.Fail(sig(k), "%s => %s", src, err)
+		return nil, false
+	}
+	got, _ = res.(slip.List)
+	if exp.err {
+		x.Fail(sig("no-error"), "%s must signal an error, returned %s", src, sl.Show(res))
+		return got, false
+	}
+	if exp.bool_ != nil {
+		want := "nil"
+		if *exp.bool_ {
+			want = "t"
+		}
+		x.Cover("predicates")
+		if len(got) != 1 || sl.Show(got[0]) != want {
+			x.Fail(sig("wrong-truth"), "%s => %s, exact answer is %s", src, sl.Show(res), want)
+			return got, false
+		}
+		return got, true
+	}
+	if len(got) < len(exp.vals) {
+		x.Fail(sig("missing-values"), "%s => %s, expected %d values", src, sl.Show(res), len(exp.vals))
+		return got, false
+	}
+	ok = true
+	for i, want := range exp.vals {
+		q, kind, canon, isNum := exactOf(got[i])
+		ex := classOfExact(want)
+		bad := ""
+		switch {
+		case !isNum:
+			bad = "not-a-number"
+		case exp.loose:
+			switch {
+			case q.Cmp(want) != 0:
+				bad = "wrong-value"
+			case exp.kinds != nil && (!exp.kinds[kind] || !canon):
+				bad = "wrong-kind"
+			}
+		case kind == "single" || kind == "double" || kind == "long":
+			bad = "float-result"
+		case q.Cmp(want) != 0:
+			bad = "wrong-value"
+		case !canon || kind != ex:
+			bad = "non-canonical"
+		}
+		if bad != "" {
+			ok = false
+			x.Fail(sig(bad), "%s => %s (value %d held as %s), exact value %s of class %s", src, sl.Show(res), i, kind, showRat(want), ex)
+		}
+	}
+	if ok {
+		x.Cover("exact:" + classOfExact(exp.vals[0]))
+	}
+	return got, ok
+}
+
 func exec(x *fw.Ctx, c Case) {
+	if c.Op == "prog" {
+		execProg(x, c)
+		return
+	}
+	if c.Route == "dolist" {
+		execLoop(x, c)
+		return
+	}
 	vals := make([]*big.Rat, len(c.Args))
 	classes := make([]string, len(c.Args))
 	for i, a := range c.Args {
 		vals[i], classes[i] = parseLit(a)
 	}
-	exp := oracle(c, vals, classes)
+	use := c.Use
+	if use == nil {
+		for i := range c.Args {
+			use = append(use, i)
+		}
+	}
+	ovals := make([]*big.Rat, len(use))
+	oclasses := make([]string, len(use))
+	names := make([]string, len(use))
+	alias := false
+	for i, u := range use {
+		ovals[i], oclasses[i], names[i] = vals[u], classes[u], varNames[u]
+		for _, w := range use[:i] {
+			alias = alias || w == u
+		}
+	}
+	if c.Op == "compare" {
+		execCompare(x, c, vals, classes, use)
+		return
+	}
+	exp := oracle(c, ovals, oclasses)
 	x.Cover("op:" + c.Op)
 	if exp.any {
 		x.Trivial()
 		x.Cover("outside-property")
 		return
 	}
+	x.Cover(fmt.Sprintf("arity:%d", len(use)))
+	if len(oclasses) <= 2 {
+		x.Cover("operands:" + strings.Join(oclasses, ","))
+		switch c.Op {
+		case "=", "/=", "<", "<=", ">", ">=", "min", "max":
+			if len(oclasses) == 2 {
+				x.Cover("cmp-kinds:" + strings.Join(oclasses, ","))
+			}
+		}
+	}
+	if alias {
+		x.Cover("same-object-twice")
+	}
+	if c.Route != "" {
+		x.Cover("route:" + c.Route)
+	}
+	incf := c.Op == "incf" || c.Op == "decf"
+	if incf {
+		p := c.Place
+		if p == "" {
+			p = "variable"
+		}
+		x.Cover("place:" + p)
+		if len(use) == 1 {
+			x.Cover("default-delta")
+		}
+		if len(exp.vals) == 1 { // the macro's value and the value stored in the place
+			exp.vals = append(exp.vals, exp.vals[0])
+		}
+	}
 	// program: bind operands to variables, apply, re-read the variables
 	var sb strings.Builder
 	sb.WriteString("(let (")
-	names := []string{"a", "b", "c", "d", "e"}
 	for i, a := range c.Args {
-		fmt.Fprintf(&sb, "(%s %s) ", names[i], a)
+		fmt.Fprintf(&sb, "(%s %s) ", varNames[i], a)
 	}
-	sb.WriteString(") (list (multiple-value-list ")
-	switch c.Op {
-	case "incf", "decf":
-		fmt.Fprintf(&sb, "(let ((z a)) (%s z b) z)", c.Op)
-	default:
-		sb.WriteString("(" + c.Op)
-		for i := range c.Args {
-			sb.WriteString(" " + names[i])
+	sb.WriteString(") ")
+	viaList := c.Route == "apply" || c.Route == "reduce"
+	if viaList {
+		sb.WriteString("(let ((l (list " + strings.Join(names, " ") + "))) ")
+	}
+	sb.WriteString("(list (multiple-value-list ")
+	if incf {
+		d := ""
+		if 1 < len(names) {
+			d = names[1]
 		}
-		sb.WriteString(")")
+		sb.WriteString(placeForm(c.Op, c.Place, names[0], d))
+	} else {
+		sb.WriteString(callForm(c.Op, c.Route, names))
 	}
 	sb.WriteString(")")
 	for i := range c.Args {
-		sb.WriteString(" " + names[i])
+		sb.WriteString(" " + varNames[i])
+	}
+	if viaList {
+		sb.WriteString(" l)")
 	}
 	sb.WriteString("))")
 	src := sb.String()
 	scope := slip.NewScope()
 	res, err := sl.Eval(scope, src)
-	argc := sigClasses(vals, classes, exp)
-	sig := func(exact, fail string) string {
-		if i := strings.IndexByte(fail, '#'); 0 < i {
-			fail = fail[:i]
-		}
-		return fmt.Sprintf("fail=%s op=%s %s", fail, c.Op, argc)
+	argc := sigClasses(ovals, oclasses, exp)
+	sop := sigOp(c.Op, c.Place, c.Route, ovals)
+	sig := func(fail string) string {
+		return fmt.Sprintf("fail=%s op=%s %s", fail, sop, argc)
 	}
 	obs := map[string]any{"src": src}
 	x.Observe(obs)
+	var top slip.List
 	if err != nil {
 		obs["error"] = err.String()
-		if exp.err && !err.Internal {
-			x.Cover("expected-error")
-			return
-		}
-		ex := "error"
-		if !exp.err {
-			if exp.bool_ != nil {
-				ex = "bool"
-			} else {
-				ex = classOfExact(exp.vals[0])
-			}
-		}
-		k := "error:" + err.Class
-		if err.Internal {
-			k = "internal-fault"
-		}
-		x.Fail(sig(ex, k), "%s => %s", src, err)
+		judge(x, src, sig, exp, nil, err)
 		return
 	}
 	obs["result"] = sl.Show(res)
-	top, _ := res.(slip.List)
-	if len(top) != 1+len(c.Args) {
-		x.Fail(sig("?", "shape"), "%s => %s", src, sl.Show(res))
-		return
+	top, _ = res.(slip.List)
+	want := 1 + len(c.Args)
+	if viaList {
+		want++
 	}
-	if exp.err {
-		x.Fail(sig("error", "no-error"), "%s must signal an error, returned %s", src, sl.Show(res))
+	if len(top) != want {
+		x.Fail(sig("shape"), "%s => %s", src, sl.Show(res))
 		return
 	}
 	// operands unchanged
 	for i := range c.Args {
-		q, kind, _, ok := exactOf(top[1+i])
-		if !ok || q.Cmp(vals[i]) != 0 || kind != classes[i] {
-			x.Fail(sig("-", "operand-mutated"), "%s: operand %s is %s after the call, was %s", src, names[i], sl.Show(top[1+i]), c.Args[i])
+		if !sameOperand(top[1+i], vals[i], classes[i], c.Args[i]) {
+			x.Fail(sig("operand-mutated"), "%s: operand %s is %s after the call, was %s", src, varNames[i], sl.Show(top[1+i]), c.Args[i])
 		}
 	}
-	got, _ := top[0].(slip.List)
-	if exp.bool_ != nil {
-		want := "nil"
-		if *exp.bool_ {
-			want = "t"
+	x.CoverN("operand-rereads", len(c.Args))
+	if viaList {
+		l, _ := top[want-1].(slip.List)
+		same := len(l) == len(use)
+		for i := 0; same && i < len(use); i++ {
+			same = sameOperand(l[i], ovals[i], oclasses[i], c.Args[use[i]])
 		}
-		if len(got) != 1 || sl.Show(got[0]) != want {
-			x.Fail(sig("bool", "wrong-truth"), "%s => %s, exact answer is %s", src, sl.Show(top[0]), want)
+		if !same {
+			x.Fail(sig("operand-mutated"), "%s: the argument list is %s after the call", src, sl.Show(top[want-1]))
 		}
-		x.Cover("predicates")
+		x.Cover("argument-list-rereads")
+	}
+	mvl := top[0]
+	if mvl == nil {
+		mvl = slip.List{}
+	}
+	judge(x, src, sig, exp, mvl, nil)
+}
+
+var compareOps = []string{"=", "/=", "<", "<=", ">", ">="}
+
+// execCompare applies all six comparisons to one pair in both argument
+// orders inside a single evaluation and checks every answer against the exact
+// values, and that exactly one of <, =, > holds.
+func execCompare(x *fw.Ctx, c Case, vals []*big.Rat, classes []string, use []int) {
+	if len(use) != 2 {
+		x.Trivial()
 		return
 	}
-	if len(got) < len(exp.vals) {
-		x.Fail(sig(classOfExact(exp.vals[0]), "missing-values"), "%s => %s, expected %d values", src, sl.Show(top[0]), len(exp.vals))
+	a, b := varNames[use[0]], varNames[use[1]]
+	ovals := []*big.Rat{vals[use[0]], vals[use[1]]}
+	oclasses := []string{classes[use[0]], classes[use[1]]}
+	var sb strings.Builder
+	sb.WriteString("(let (")
+	for i, lit := range c.Args {
+		fmt.Fprintf(&sb, "(%s %s) ", varNames[i], lit)
+	}
+	sb.WriteString(") (list (list")
+	for _, op := range compareOps {
+		fmt.Fprintf(&sb, " (%s %s %s)", op, a, b)
+	}
+	for _, op := range compareOps {
+		fmt.Fprintf(&sb, " (%s %s %s)", op, b, a)
+	}
+	sb.WriteString(")")
+	for i := range c.Args {
+		sb.WriteString(" " + varNames[i])
+	}
+	sb.WriteString("))")
+	src := sb.String()
+	x.Cover("op:compare")
+	x.Cover("cmp-kinds:" + oclasses[0] + "," + oclasses[1])
+	if use[0] == use[1] {
+		x.Cover("same-object-twice")
+	}
+	argc := sigClasses(ovals, oclasses, expect{})
+	sig := func(op, fail string) string {
+		return fmt.Sprintf("fail=%s op=%s %s", fail, op, argc)
+	}
+	obs := map[string]any{"src": src}
+	x.Observe(obs)
+	res, err := sl.Eval(slip.NewScope(), src)
+	if err != nil {
+		obs["error"] = err.String()
+		k := "error:" + err.Class
+		if err.Internal {
+			k = "internal-fault"
+		}
+		x.Fail(sig("compare", k), "%s => %s", src, err)
 		return
 	}
-	for i, want := range exp.vals {
-		q, kind, canon, ok := exactOf(got[i])
-		ex := classOfExact(want)
-		vi := ""
-		if 0 < i {
-			vi = fmt.Sprintf("#%d", i)
-		}
-		switch {
-		case !ok:
-			x.Fail(sig(ex, "not-a-number"+vi), "%s => %s, exact value %s", src, sl.Show(top[0]), showRat(want))
-		case exp.loose:
-			if q.Cmp(want) != 0 {
-				x.Fail(sig(ex, "wrong-value"+vi), "%s => %s, exact value %s", src, sl.Show(top[0]), showRat(want))
-			}
-		case kind == "single" || kind == "double" || kind == "long":
-			x.Fail(sig(ex, "float-result"+vi), "%s => %s (a %s float), exact value %s", src, sl.Show(top[0]), kind, showRat(want))
-		case q.Cmp(want) != 0:
-			x.Fail(sig(ex, "wrong-value"+vi), "%s => %s, exact value %s", src, sl.Show(top[0]), showRat(want))
-		case !canon || kind != ex:
-			x.Fail(sig(ex, "non-canonical"+vi), "%s => %s held as %s, canonical class is %s", src, sl.Show(top[0]), kind, ex)
+	obs["result"] = sl.Show(res)
+	top, _ := res.(slip.List)
+	var answers slip.List
+	if 0 < len(top) {
+		answers, _ = top[0].(slip.List)
+	}
+	if len(top) != 1+len(c.Args) || len(answers) != 12 {
+		x.Fail(sig("compare", "shape"), "%s => %s", src, sl.Show(res))
+		return
+	}
+	for i := range c.Args {
+		if !sameOperand(top[1+i], vals[i], classes[i], c.Args[i]) {
+			x.Fail(sig("compare", "operand-mutated"), "%s: operand %s is %s after the calls, was %s", src, varNames[i], sl.Show(top[1+i]), c.Args[i])
 		}
 	}
-	x.Cover("exact:" + classOfExact(exp.vals[0]))
+	x.CoverN("operand-rereads", len(c.Args))
+	k := ovals[0].Cmp(ovals[1])
+	truth := func(op string, k int) bool {
+		switch op {
+		case "=":
+			return k == 0
+		case "/=":
+			return k != 0
+		case "<":
+			return k < 0
+		case "<=":
+			return k <= 0
+		case ">":
+			return 0 < k
+		}
+		return 0 <= k
+	}
+	for i, op := range append(append([]string{}, compareOps...), compareOps...) {
+		kk := k
+		l, r := a, b
+		if 6 <= i {
+			kk, l, r = -k, b, a
+		}
+		got := answers[i] != nil
+		if sl.Show(answers[i]) != "t" && answers[i] != nil {
+			x.Fail(sig(op, "not-a-boolean"), "%s: (%s %s %s) => %s", src, op, l, r, sl.Show(answers[i]))
+			continue
+		}
+		if got != truth(op, kk) {
+			x.Fail(sig(op, "wrong-truth"), "%s: (%s %s %s) => %s, exact answer is %v", src, op, l, r, sl.Show(answers[i]), truth(op, kk))
+		}
+	}
+	x.CoverN("predicates", 12)
+	// exactly one of <, =, > holds
+	n := 0
+	for _, i := range []int{0, 2, 4} {
+		if answers[i] != nil {
+			n++
+		}
+	}
+	if n != 1 {
+		x.Fail(sig("compare", "trichotomy"), "%s: %d of (< a b) (= a b) (> a b) hold: %s", src, n, sl.Show(top[0]))
+	}
+	x.Cover("trichotomy:" + []string{"lt", "eq", "gt"}[k+1])
 }
 
 func init() {
 	fw.Register(fw.Spec[Case]{
 		ID: "C05",
-		Rule: "operator x operand tuple; first block = every ordered pair of the 25-value boundary grid for every binary operator (exhaustive), " +
+		Rule: "operator x operand tuple; first block = every ordered pair of the 20-value boundary grid for every binary operator (exhaustive), " +
 			"the float-comparison grid (each grid integer against 9 float neighbours in 3 formats), the canonical-form block (sums, products, quotients landing on ratio->integer and bignum->fixnum boundaries), " +
 			"the structured block (perfect squares +-1 for every root size 1..100 bits; dividends q*d+r with r around 0, d/2, d for quotients and divisors around 2^24..2^70; products landing on 2^24..2^65 +-1; integers around 2^24, 2^53, 10^15..10^22 against float neighbours; gcd/lcm with large common factors), " +
-			"then seeded tuples of integers up to 200 bits (isqrt half of the time next to a square, gcd/lcm half of the time with a common factor), ratios, and floats adjacent to grid integers; distinct = distinct (op,args); " +
-			"non-trivial = the property pins the result (exact operands or comparison)",
+			"the extra block (every unary operator, one-argument comparison and default-delta incf/decf on the grid, its neighbours and boundary ratios; 3- and 4-argument integer operators on a boundary set; ratios against their float, integer and ratio neighbours and floats of different formats against each other with all six comparisons in both orders in one evaluation (exactly one of < = > must hold); " +
+			"3-argument comparisons over mixed representations of equal and adjacent values; the same variable passed twice; funcall/apply/reduce routes with the argument list re-read; incf/decf on car, nth, aref and gethash places; expt with exponents beyond a machine word; " +
+			"multi-step histories where operands are results of earlier steps, every variable is re-read after every step, a step may fail (division by zero, non-number operand) and the state is used afterwards), " +
+			"then seeded tuples of integers up to 200 bits (isqrt half of the time next to a square, gcd/lcm half of the time with a common factor), ratios, floats adjacent to grid integers, and seeded aliases, routes, places and histories; distinct = distinct case; " +
+			"non-trivial = the property pins the result (exact operands or comparison). Histories, routes, aliases and places avoid the operand combinations of the listed findings (bignum with ratio, floor by a negative divisor, negative exponent, a - whose bignum operands give a fixnum, logeqv of bignums); single applications keep producing them",
 		N:           nCases,
 		Gen:         gen,
 		Exec:        exec,
